@@ -68,8 +68,11 @@ func runOriginated(t *rapid.T, rec *evid.Rec, id string) {
 	if sr {
 		hbLay, _ := ref.LayoutOf(refTypeOf(&minimal.MessageHeartbeat{}))
 		for i, p := range pipes {
-			f := ref.Frame{V2: true, Sys: byte(20 + i), Comp: 1, ID: 0}
-			f.Payload = hbLay.Encode(&minimal.MessageHeartbeat{Autopilot: 3, SystemStatus: 4}, true)
+			// the vehicle speaks whichever protocol version it likes (every other one version 1, where nothing requires
+			// signed frames): what the node sends in reply is in the node's version
+			hv2 := inKey != nil || i%2 == 0
+			f := ref.Frame{V2: hv2, Sys: byte(20 + i), Comp: 1, ID: 0}
+			f.Payload = hbLay.Encode(&minimal.MessageHeartbeat{Autopilot: 3, SystemStatus: 4}, hv2)
 			if inKey != nil {
 				f.Incompat, f.LinkID, f.Timestamp = 1, byte(i), 7000000
 			}
